@@ -44,33 +44,47 @@ theorem wire_tables_sound (P : Prog) (ty : Ty) :
   · rw [isContainerType_eq]
     cases ty <;> simp [Ty.isBase, Ty.isStruct]
 
+/-- regenerated obligation ("must be aligned"): genBLengthField and genFastAppendField emit the same guard for an
+optional binary field with a default (both have the `string(p.F) != string(default)` test, or neither has) -/
+theorem guards_aligned : Generated.C10.optBinDefaultCmpBLength = Generated.C10.optBinDefaultCmpFastAppend := by decide
+
 /-- **BLength is exact**: whenever FastAppend writes an object (any schema, any object, any nesting), BLength
 answers exactly the number of bytes written — including the fixed-size fast paths `len * size`,
 `len * (ksz + vsz)`, `len * ksz + Σ values`, and the optional-skip rules, which are the same function
-(`written`) in both code writers. -/
+(`written`) in both code writers (`guards_aligned`). -/
 theorem blength_exact (P : Prog) (fuel sidx : Nat) (obj : GoVal) (bs : Bytes)
-    (h : fastWrite P fuel sidx obj = .ok bs) : blength P fuel sidx obj = .ok bs.length :=
-  blengthAny_exact P fuel (.struct sidx) obj bs h
+    (h : fastWrite P fuel sidx obj = .ok bs) : blength P fuel sidx obj = .ok bs.length := by
+  unfold blength
+  rw [guards_aligned]
+  exact blengthAny_exact _ P fuel (.struct sidx) obj bs h
 
 /-- hence `FastWrite(buf)` into a buffer of `BLength()` bytes never overflows and writes the same bytes -/
 theorem fast_write_into_blength (P : Prog) (fuel sidx : Nat) (obj : GoVal) (bs : Bytes)
     (h : fastWrite P fuel sidx obj = .ok bs) : fastWriteInto P fuel sidx obj = .ok bs := by
   simp [fastWriteInto, blength_exact P fuel sidx obj bs h, h, bind]
 
-/-- **FastAppend emits the standard wire value up to field order**: for every schema without an optional
-binary field that has a default, every well-typed object that the standard `Write` accepts (`toW … = ok w`:
-unions with exactly one member set, sets without duplicates under validate_set), FastAppend writes exactly
-`encW (normW w)`: the encoding of the same wire value with the fields of every struct, at every depth, sorted by
-field id. FULL STATEMENT (false, see `fast_write_optional_binary_default_differs`): the same without `NoOptBin`. -/
-theorem fast_write_is_std (P : Prog) (hN : NoOptBin P) (sidx : Nat) (obj : GoVal) (w : WVal) (fuel : Nat)
-    (hwt : WT P.structs (.struct sidx) obj) (h : toW P (.struct sidx) obj = .ok w) (hd : w.depth ≤ fuel) :
+/-- **FastAppend emits the standard wire value up to field order**: for every well-typed object that the standard
+`Write` accepts (`toW … = ok w`: unions with exactly one member set, sets without duplicates under validate_set),
+FastAppend writes exactly `encW (normW w)`: the encoding of the same wire value with the fields of every struct, at
+every depth, sorted by field id. `WriteOK c P`: the code writers have the `string(p.F) != string(default)` guard
+(`c = true`, the repaired generator: then there is NO hypothesis on the schema), or the schema has no optional binary
+field with a default (the old generator; without it the statement is false,
+`fast_write_optional_binary_default_differs`). `c` is the regenerated fact `optBinDefaultCmpFastAppend`. -/
+theorem fast_write_is_std (P : Prog) (hN : WriteOK Generated.C10.optBinDefaultCmpFastAppend P) (sidx : Nat) (obj : GoVal)
+    (w : WVal) (fuel : Nat) (hwt : WT P.structs (.struct sidx) obj) (h : toW P (.struct sidx) obj = .ok w) (hd : w.depth ≤ fuel) :
     fastWrite P fuel sidx obj = .ok (encW (normW w)) :=
-  fastAny_is_std P hN obj (.struct sidx) w fuel hwt h hd
+  fastAny_is_std _ P hN obj (.struct sidx) w fuel hwt h hd
+
+/-- the same for the repaired code writers, with no hypothesis on the schema -/
+theorem fast_write_is_std_guarded (P : Prog) (sidx : Nat) (obj : GoVal) (w : WVal) (fuel : Nat)
+    (hwt : WT P.structs (.struct sidx) obj) (h : toW P (.struct sidx) obj = .ok w) (hd : w.depth ≤ fuel) :
+    fastWriteG true P fuel sidx obj = .ok (encW (normW w)) :=
+  fastAny_is_std true P (Or.inl rfl) obj (.struct sidx) w fuel hwt h hd
 
 /-- **and that encoding decodes under `Core.Wire`** to the well-formed struct value `normW w` (same fields, same
 values, sorted by id), with nothing left over. -/
-theorem fast_write_decodes (P : Prog) (hN : NoOptBin P) (sidx : Nat) (obj : GoVal) (w : WVal) (fuel : Nat)
-    (hwt : WT P.structs (.struct sidx) obj) (h : toW P (.struct sidx) obj = .ok w) (hd : w.depth ≤ fuel) :
+theorem fast_write_decodes (P : Prog) (hN : WriteOK Generated.C10.optBinDefaultCmpFastAppend P) (sidx : Nat) (obj : GoVal)
+    (w : WVal) (fuel : Nat) (hwt : WT P.structs (.struct sidx) obj) (h : toW P (.struct sidx) obj = .ok w) (hd : w.depth ≤ fuel) :
     ∃ bs, fastWrite P fuel sidx obj = .ok bs ∧ WF (normW w) ∧ decW w.depth .struct bs = some (normW w, []) := by
   refine ⟨_, fast_write_is_std P hN sidx obj w fuel hwt h hd, ?_⟩
   obtain ⟨hwf, htt⟩ := toW_WF P obj (.struct sidx) w hwt h
@@ -82,7 +96,8 @@ theorem fast_write_decodes (P : Prog) (hN : NoOptBin P) (sidx : Nat) (obj : GoVa
 
 /-- **byte identity for schemas in id order**: when every struct-like declares its fields in non-decreasing id order
 (the common style), FastAppend writes exactly the bytes the standard Write writes. -/
-theorem fast_write_eq_std_sorted (P : Prog) (hN : NoOptBin P) (hS : SortedSchema P) (sidx : Nat) (obj : GoVal) (bs : Bytes)
+theorem fast_write_eq_std_sorted (P : Prog) (hN : WriteOK Generated.C10.optBinDefaultCmpFastAppend P) (hS : SortedSchema P)
+    (sidx : Nat) (obj : GoVal) (bs : Bytes)
     (fuel : Nat) (hwt : WT P.structs (.struct sidx) obj) (h : write P sidx obj = .ok bs) (hf : bs.length ≤ fuel) :
     fastWrite P fuel sidx obj = .ok bs := by
   simp only [write, Res.bind_eq_ok] at h
@@ -104,7 +119,7 @@ theorem fast_read_refines_std (P : Prog) (hP : SchemaOK P) (hI : IdsInt16 P) (si
   obtain ⟨v, r⟩ := q
   simp only [] at hv
   subst hv
-  obtain ⟨e, _⟩ := fastReadTy_refines P (progOK_of P hP hI) _ _ bs v r hB hq
+  obtain ⟨e, _⟩ := fastReadTy_refines curSkip (guardedSkip_refines _ _ _) P (progOK_of P hP hI) _ _ bs v r hB hq
   refine ⟨bs.length - r.length, ?_, by omega⟩
   simp [fastRead, fastReadWith, e, bind]
 
@@ -123,7 +138,7 @@ theorem fast_read_eq_std_on_written (P : Prog) (hP : SchemaOK P) (hI : IdsInt16 
   simp only [List.append_nil] at hr
   have hs : (noVal P).structs = P.structs := rfl
   rw [hs] at hr
-  obtain ⟨e, _⟩ := fastReadTy_refines P (progOK_of P hP hI) _ _ (encW w) v' [] hB hr
+  obtain ⟨e, _⟩ := fastReadTy_refines curSkip (guardedSkip_refines _ _ _) P (progOK_of P hP hI) _ _ (encW w) v' [] hB hr
   refine ⟨v', ?_, ?_, ?_⟩
   · simp [Std.read, hr]
   · simp [fastRead, fastReadWith, e, bind]
@@ -138,17 +153,17 @@ theorem fast_read_tolerates_unknown (P : Prog) (hP : SchemaOK P) (hI : IdsInt16 
     ∃ fs', toWFields P sd.fields fs' = .ok ws ∧
       ∀ (ms : List (Nat × WVal)) (r : Bytes), Mixed sd.fields ws ms → B256 (encFields ms ++ 0 :: r) →
         readTy P.structs (f + 1) (.struct i) (encFields ms ++ 0 :: r) = some (.strct fs', r) ∧
-        fastReadTyWith Gopkg.skip P (f + 1) (.struct i) (encFields ms ++ 0 :: r) = .ok (.strct fs', r) := by
+        fastReadTyWith curSkip P (f + 1) (.struct i) (encFields ms ++ 0 :: r) = .ok (.strct fs', r) := by
   obtain ⟨fs', h1, h2⟩ := struct_read_mixed P hP hv i sd fs ws f hsd hwt hw hd
   refine ⟨fs', h1, fun ms r hm hB => ⟨h2 ms r hm, ?_⟩⟩
-  exact (fastReadTy_refines P (progOK_of P hP hI) _ _ _ _ r hB (h2 ms r hm)).1
+  exact (fastReadTy_refines curSkip (guardedSkip_refines _ _ _) P (progOK_of P hP hI) _ _ _ _ r hB (h2 ms r hm)).1
 
 /-- **FastRead never panics — given a bounds-respecting Skip**: for EVERY schema and EVERY byte string (every
 truncation, every corruption), with any runtime `skip` that never panics and never answers a length beyond the
 buffer it was given, the outcome of the generated FastRead is `ok` or `err`: every slice expression `b[off:]`
 of the generated code stays in range (`advance`), because every other gopkg primitive it calls checks bounds.
-PARTIAL: gopkg v0.2.0's Skip does NOT satisfy the hypothesis — `gopkg_skip_not_bounded`,
-`fast_read_panics_on_truncation`, `fast_read_panics_on_type_byte` are the witnesses (replayed on the real code). -/
+gopkg v0.2.0's Skip alone does NOT satisfy the hypothesis (`gopkg_skip_not_bounded`); the skip path of the repaired
+generator does, whatever gopkg's Skip answers (`fast_read_no_panic_guarded`). -/
 theorem fast_read_no_panic (skip : Nat → Bytes → FRes Nat) (hs : SkipBounded skip) (P : Prog) (sidx : Nat) (bs : Bytes) :
     NoPanic (fastReadWith skip P sidx bs) := by
   unfold fastReadWith
@@ -156,7 +171,29 @@ theorem fast_read_no_panic (skip : Nat → Bytes → FRes Nat) (hs : SkipBounded
   intro q _
   trivial
 
-/-- **the suggested repair suffices**: with `typeToSize[uint8(t)]` and one bounds check before the `return i, nil`
+/-- **FastRead of the guarded code never panics** — FULL: for the code written by a generator that wraps the Skip
+call in a recovering function literal and checks `off > len(b)` after it (facts `guardRecover`, `guardSkipLength`;
+the `ftyp < 0` pre-check is an optimisation and may be present or not), for EVERY schema and EVERY byte string the
+outcome is `ok` or `err`. NOTHING is assumed about the answers of gopkg's Skip (`guardedSkip_bounded` does not unfold
+it). What remains assumed about gopkg, outside the theorem: (1) `ReadFieldBegin/ReadBool/…/ReadBinary/ReadListBegin/
+ReadMapBegin` check bounds as modelled in `Gen.Fast.Gopkg` (every one of them is exercised by the correspondence);
+(2) a failure of `Skip` is an ordinary Go panic (index/slice out of range — recoverable) or an error, i.e. Skip performs
+no out-of-bounds memory access through its unsafe pointers (it compares `p+i` with `e` before every read, see the
+model) and terminates. -/
+theorem fast_read_no_panic_guarded (negGuard : Bool) (P : Prog) (sidx : Nat) (bs : Bytes) :
+    NoPanic (fastReadG negGuard true true P sidx bs) :=
+  fast_read_no_panic _ (guardedSkip_bounded negGuard) P sidx bs
+
+/-- the same for the CURRENT generator, from the regenerated facts -/
+theorem fast_read_no_panic_current (h1 : Generated.C10.guardRecover = true) (h2 : Generated.C10.guardSkipLength = true)
+    (P : Prog) (sidx : Nat) (bs : Bytes) : NoPanic (fastRead P sidx bs) := by
+  have := fast_read_no_panic_guarded Generated.C10.guardNegativeType P sidx bs
+  unfold fastReadG at this
+  unfold fastRead curSkip
+  rw [h1, h2]
+  exact this
+
+/-- **the alternative repair inside gopkg suffices too**: with `typeToSize[uint8(t)]` and one bounds check before the `return i, nil`
 of the MAP loop (`Gopkg.skipTypeF`, otherwise a verbatim copy of `skipType`), the generated FastRead never panics,
 for every schema and every byte string — no hypothesis left. -/
 theorem fast_read_no_panic_with_repaired_skip (P : Prog) (sidx : Nat) (bs : Bytes) :
@@ -174,24 +211,36 @@ theorem gopkg_skip_not_bounded :
 
 def exEmpty : Prog := { structs := [{ kind := 0, fields := [] }] }
 
-/-- witness 2: a truncation of a valid encoding (`struct Empty {}` with an unknown field 1: map<string,i32>{"":5})
-makes the generated FastRead panic with `slice bounds out of range` -/
+/-- witness 2 (regression item): a truncation of a valid encoding (`struct Empty {}` with an unknown field
+1: map<string,i32>{"":5}) makes the UNGUARDED FastRead panic with `slice bounds out of range`; the guarded one
+answers an error; both read the untruncated input -/
 theorem fast_read_panics_on_truncation :
-    fastRead exEmpty 0 [13, 0, 1, 11, 8, 0, 0, 0, 1, 0, 0, 0, 0, 0, 0, 0, 5, 0] = .ok (.strct [], 18) ∧
-    fastRead exEmpty 0 [13, 0, 1, 11, 8, 0, 0, 0, 1, 0, 0, 0, 0, 0] = .panic 2 := ⟨rfl, rfl⟩
+    fastReadG false false false exEmpty 0 [13, 0, 1, 11, 8, 0, 0, 0, 1, 0, 0, 0, 0, 0, 0, 0, 5, 0] = .ok (.strct [], 18) ∧
+    fastReadG false false false exEmpty 0 [13, 0, 1, 11, 8, 0, 0, 0, 1, 0, 0, 0, 0, 0] = .panic 2 ∧
+    fastReadG true true true exEmpty 0 [13, 0, 1, 11, 8, 0, 0, 0, 1, 0, 0, 0, 0, 0, 0, 0, 5, 0] = .ok (.strct [], 18) ∧
+    fastReadG true true true exEmpty 0 [13, 0, 1, 11, 8, 0, 0, 0, 1, 0, 0, 0, 0, 0] = .err := ⟨rfl, rfl, rfl, rfl⟩
 
-/-- witness 3: one corrupted type byte (≥ 0x80) makes the generated FastRead panic with `index out of range` -/
-theorem fast_read_panics_on_type_byte : fastRead exEmpty 0 [128, 0, 1, 0] = .panic 1 := rfl
+/-- witness 3 (regression item): one corrupted type byte (≥ 0x80), in a field header or as the element type of a
+skipped list, makes the UNGUARDED FastRead panic with `index out of range`; the guarded one answers an error (the
+nested case through the recovering wrapper, with or without the `ftyp < 0` pre-check) -/
+theorem fast_read_panics_on_type_byte :
+    fastReadG false false false exEmpty 0 [128, 0, 1, 0] = .panic 1 ∧
+    fastReadG false false false exEmpty 0 [15, 0, 1, 144, 0, 0, 0, 1, 0, 0] = .panic 1 ∧
+    fastReadG true true true exEmpty 0 [128, 0, 1, 0] = .err ∧
+    fastReadG true true true exEmpty 0 [15, 0, 1, 144, 0, 0, 0, 1, 0, 0] = .err ∧
+    fastReadG true false true exEmpty 0 [15, 0, 1, 144, 0, 0, 0, 1, 0, 0] = .panic 1 := ⟨rfl, rfl, rfl, rfl, rfl⟩
 
 def exOptBin : Prog := { structs := [{ kind := 0, fields := [{ id := 1, req := .optional, ty := .bin, dflt := some (.bytes [97, 98, 99]) }] }] }
 
-/-- witness 4 (why `fast_write_is_std` excludes them): `struct S {1: optional binary b = "abc"}`, object with
-`B == nil`: the standard Write emits the field with an empty value (`IsSetB` is `string(p.B) != string(DEFAULT)`),
-FastAppend omits it (`p.B != nil`); a reader then sees `""` in one case and `"abc"` in the other. -/
+/-- witness 4 (regression item; why `WriteOK` is needed for the old writers): `struct S {1: optional binary b = "abc"}`,
+object with `B == nil`: the standard Write emits the field with an empty value (`IsSetB` is
+`string(p.B) != string(DEFAULT)`), the old FastAppend omits it (`p.B != nil`) — a reader then sees `""` in one case
+and `"abc"` in the other; the repaired FastAppend writes what Write writes. -/
 theorem fast_write_optional_binary_default_differs :
-    write exOptBin 0 (.strct [.nil]) = .ok [11, 0, 1, 0, 0, 0, 0, 0] ∧ fastWrite exOptBin 5 0 (.strct [.nil]) = .ok [0] ∧
+    write exOptBin 0 (.strct [.nil]) = .ok [11, 0, 1, 0, 0, 0, 0, 0] ∧ fastWriteG false exOptBin 5 0 (.strct [.nil]) = .ok [0] ∧
+    fastWriteG true exOptBin 5 0 (.strct [.nil]) = .ok [11, 0, 1, 0, 0, 0, 0, 0] ∧
     Std.read exOptBin 0 [11, 0, 1, 0, 0, 0, 0, 0] = some (.strct [.bytes []]) ∧
-    Std.read exOptBin 0 [0] = some (.strct [.bytes [97, 98, 99]]) := ⟨rfl, rfl, rfl, rfl⟩
+    Std.read exOptBin 0 [0] = some (.strct [.bytes [97, 98, 99]]) := ⟨rfl, rfl, rfl, rfl, rfl⟩
 
 /-! ### non-vacuity of the hypotheses -/
 
@@ -208,7 +257,7 @@ example : IdsInt16 exProg := by
   intro i sd h f hf
   match i, h with
   | 0, h => cases h; simp at hf; rcases hf with rfl | rfl | rfl <;> decide
-example : NoOptBin exProg := by
+example : WriteOK false exProg := Or.inr <| by
   intro i sd h f hf
   match i, h with
   | 0, h => cases h; simp at hf; rcases hf with rfl | rfl | rfl <;> simp [NoOptBinDflt]
